@@ -232,6 +232,10 @@ func c11Scenarios(r *verdict.Run, race bool) {
 		for _, leave := range []string{"unblock", "timeout", "kill", "close"} {
 			for rep := 0; rep < 3; rep++ { // the outcome of the race inside the waiter is random: three attempts each
 				all = append(all, scn{kind: "l:signalled-head-ends-otherwise", form: f, consumer: []string{leave, strconv.Itoa(rep)}})
+				if f.multi && rep < 2 {
+					// the same with waiters that name a missing key first and are woken through their second key
+					all = append(all, scn{kind: "l:signalled-head-ends-otherwise", form: f, multi: true, consumer: []string{leave, strconv.Itoa(rep)}})
+				}
 			}
 		}
 		if f.multi {
